@@ -14,8 +14,8 @@ package rest
 //     lists reads back (GET /db/doc/name?rev=, admin) byte-identical to the content the client holds for that digest;
 //   - whatever was acknowledged or refused, every attachment any current revision serves matches the digest and
 //     length it is advertised with (admin GET doc?attachments=true, and GET /db/doc/name);
-//   - an honest push (right data, right proof, parent = current revision, no fault, no concurrent writer of the
-//     same document) is accepted;
+//   - an honest push (right data, right proof, built on the current revision the administrator can read - or the first
+//     write the document ever sees -, no fault, no concurrent writer of the same document) is accepted;
 //   - a client that advertises the digest of an attachment of a document it cannot read, without holding the data
 //     (wrong proof, wrong data), never gets a revision accepted that lists it, and never reads that data back.
 
@@ -490,7 +490,7 @@ func c14pRun(env *verifsim.Env, raw json.RawMessage) *verifsim.Violation {
 			raced := others > 0 || contended[id] != before+1
 			if accepted {
 				acks = append(acks, c14pAck{doc: id, rev: newRev, atts: listed, cheated: cheated})
-			} else if !cheated && op.Parent == "" && !raced && !p.Faulty && id != "shared" && !strings.Contains(errText, "not sent") && !strings.Contains(errText, "closed") && !strings.Contains(errText, "Disconnected") {
+			} else if !cheated && op.Parent == "" && (exists || before == 0) && !raced && !p.Faulty && id != "shared" && !strings.Contains(errText, "not sent") && !strings.Contains(errText, "closed") && !strings.Contains(errText, "Disconnected") {
 				honestRefused = append(honestRefused, fmt.Sprintf("%s revision %s on parent %q listing %v: %s", id, newRev, parent, listed, errText))
 			}
 			mu.Unlock()
